@@ -10,7 +10,8 @@ PointSets == {S \in SUBSET Pts : Cardinality(S) >= 1 /\ Cardinality(S) <= PMax}
 SortedSeq(S) == LET RECURSIVE F(_) F(T) == IF T = {} THEN <<>> ELSE
                      LET m == CHOOSE a \in T : \A b \in T : RLe(a, b) IN <<m>> \o F(T \ {m}) IN F(S)
 Init == \/ \E p \in Params, S \in PointSets : c = [fam |-> "gram", p |-> p, X |-> SortedSeq(S)]
-        \/ \E p \in Params \cup {[v |-> v, alpha |-> a, l |-> l] : v \in {<<1, 64>>, R(64)}, a \in 1..2, l \in {<<1, 64>>, R(64)}} :
+        \/ \E p \in Params \cup {[v |-> v, alpha |-> a, l |-> l] : v \in {<<1, 64>>, R(64)}, a \in {1, 2, 64}, l \in {<<1, 64>>, R(64)}}
+                        \cup {[v |-> R(1), alpha |-> 64, l |-> R(1)], [v |-> R(3), alpha |-> 16, l |-> <<1, 2>>]} :
               c = [fam |-> "scalar", p |-> p, X |-> <<>>]      \* incl. the corners of the parameter box (1e-2, 1e2)
 Next == UNCHANGED c
 Spec == Init /\ [][Next]_c
